@@ -18,6 +18,18 @@ from . import report
 from .loader import AnchorError, Repo, Undecided
 
 
+def _anchored_files(pid):
+    here = os.path.dirname(os.path.dirname(os.path.abspath(__file__)))
+    try:
+        for line in open(os.path.join(here, "properties.jsonl")):
+            d = json.loads(line)
+            if d.get("id") == pid:
+                return set(d.get("anchors", {}).get("files", []))
+    except OSError:
+        pass
+    return set()
+
+
 def run_property(pid, tier, repo, seed=0, strict=False):
     """Run every rule.  A rule that cannot decide (vanished anchor,
     unrecognised shape, engine exception) is recorded in `ctx.undecided`
@@ -28,6 +40,12 @@ def run_property(pid, tier, repo, seed=0, strict=False):
     ctx = report.Ctx(pid, tier, repo, seed)
     ctx.undecided = []
     rules = list(mod.RULES)
+    files = _anchored_files(pid) | set(getattr(mod, "MEMO_FILES", ()))
+    if files:
+        from . import memo
+        rules.append((f"{pid}-RM", "memoisation in and below the anchored "
+                      "code depends on its arguments only",
+                      lambda c, files=files: memo.rule(c, files)))
     if tier == "thorough":
         rules += list(getattr(mod, "THOROUGH_RULES", []))
     for rid, _title, fn in rules:
